@@ -287,6 +287,54 @@ class Grammar:
 
         return lambda start: len(text) in ends_rule(start, 0)
 
+    # ---- exact recogniser (pyparsing semantics: ordered choice takes the first alternative that matches and never revisits it,
+    #      repetition is greedy and is not backed into, look-aheads consume nothing, Regex/Literal match at the position)
+    def exact_end(self, start, text, i=0):
+        """end offset of the match of rule `start` at offset i under pyparsing's deterministic semantics, or None.
+        Whitespace skipping is not modelled (the texts analysed contain none); parse actions are assumed not to veto a match."""
+        IR = self.IR
+        sys.setrecursionlimit(20000)
+
+        def m(n, i):
+            k = n.kind
+            if k == "ref":
+                return m(IR[n.kw["name"]], i)
+            if k == "lit":
+                s_ = n.kw["s"]
+                return i + len(s_) if text.startswith(s_, i) else None
+            if k == "re":
+                mm = re.compile(n.kw["s"]).match(text, i)
+                return mm.end() if mm else None
+            if k == "seq":
+                j = m(n.kids[0], i)
+                return None if j is None else m(n.kids[1], j)
+            if k == "alt":
+                j = m(n.kids[0], i)
+                return j if j is not None else m(n.kids[1], i)
+            if k == "opt":
+                j = m(n.kids[0], i)
+                return i if j is None else j
+            if k in ("star", "plus"):
+                j, cnt = i, 0
+                while True:
+                    nx = m(n.kids[0], j)
+                    if nx is None or nx == j:
+                        break
+                    j, cnt = nx, cnt + 1
+                return None if (k == "plus" and cnt == 0) else j
+            if k == "look":
+                return i if m(n.kids[0], i) is not None else None
+            if k == "not":
+                return i if m(n.kids[0], i) is None else None
+            if k == "forward":
+                return None
+            raise AnalysisError("grammar: bad IR node " + k)
+        return m(IR[start], i)
+
+    def exact_accepts(self, start, text):
+        """parseString(text, parseAll=True) succeeds for rule `start` (exact model)"""
+        return self.exact_end(start, text, 0) == len(text)
+
     def accepts(self, text, starts):
         r = self.recogniser(text)
         return any(r(s) for s in starts)
